@@ -4,6 +4,22 @@ from .. import oracles, scen
 from . import protocommon as pc
 
 
+def _premises(out, o, which):
+    """count, per real quiescent point, whether the replayed event sequence satisfies the premises of the
+    convergence theorems (evaluated by the extracted Coq functions inside the driver)"""
+    st = out['opstats'].setdefault(which + '_premises_at_quiescent_points', {'causal': 0, 'drain_separated': 0, 'causal_not_drain_separated': 0, 'neither': 0})
+    for l in o.split('\n'):
+        if l.startswith('ABSPREMISE'):
+            kv = dict(x.split('=') for x in l.split()[1:])
+            if kv.get('writes') == '0':
+                continue
+            co, ds = kv['causal'] == '1', kv['drainsep'] == '1'
+            st['causal'] += co
+            st['drain_separated'] += ds
+            st['causal_not_drain_separated'] += (co and not ds)
+            st['neither'] += (not co and not ds)
+
+
 def _absval(out, keys_of):
     """replay the event-level value model (Abs/Values.v) on every real trace, for the keys given"""
     import subprocess, os
@@ -17,6 +33,7 @@ def _absval(out, keys_of):
         for (h, t) in keys_of(r['name']):
             rc, o = core.run([core.DRIVER, 'absval', r['trace_path'], str(h), str(t)], timeout=120)
             n += 1
+            _premises(out, o, 'value_model')
             for l in o.split('\n'):
                 if l.startswith('DIFF'):
                     out['diffs'].append('%s [value model, key %s/%s]: %s' % (r['name'], h, t, l[:400]))
@@ -66,6 +83,8 @@ def _abspar(out):
             n += 1
             if 'ABSSKIP' in o:
                 skipped += 1
+            else:
+                _premises(out, o, 'parent_model')
             for l in o.split('\n'):
                 if l.startswith('DIFF'):
                     out['diffs'].append('%s [parent model, child %s]: %s' % (r['name'], c, l[:400]))
